@@ -41,6 +41,9 @@ class Ctx:
         self.allow_err = True
         self.allow_reenter = True
         self.allow_handler_err = False
+        self.in_proc = False    # inside a procedure body (a frame of the real VM exists below)
+        self.allow_top_cweh = False
+        self.nre = [0]          # number of invocations of stored continuations generated so far
 
     def fresh(self, p):
         self.counter[0] += 1
@@ -94,13 +97,14 @@ def thunk_body(c, d, tag):
     x = r.random()
     if d <= 0 or x < 0.72:
         return n
-    cc = c.child(in_thunk=True, ks=[], allow_handler_err=False)
+    cc = c.child(in_thunk=True, ks=[], allow_handler_err=False, in_proc=True)
     if x < 0.80 and c.allow_reenter:
         c.feat("capture-in-wind-thunk")
         s = r.choice(SLOTS)
         return "(begin %s (call/cc (lambda (k) (set! %s k))) (note '%s))" % (n, s, tag + "b")
     if x < 0.86 and c.allow_reenter:
         c.feat("invoke-in-wind-thunk")
+        c.nre[0] += 1
         s = r.choice(SLOTS)
         return "(begin %s (if (and (procedure? %s) (again?)) (%s %s) 0))" % (n, s, s, small(c))
     if x < 0.92 and c.handlers > 0 and c.allow_err:
@@ -116,15 +120,28 @@ def gen(c, d):
         opts.append(("var", 5))
     if d > 0:
         opts += [("arith", 6), ("note", 5), ("noteval", 3), ("let", 3), ("if", 2), ("capture", 7), ("wind", 5),
-                 ("handler", 3), ("cweh", 2), ("hof", 3), ("loop", 2), ("setlocal", 1), ("seq", 2)]
+                 ("handler", 3), ("hof", 3), ("loop", 2), ("setlocal", 1), ("seq", 2)]
+        # call-with-exception-handler written directly in a top-level form (no procedure frame below) is the
+        # class of finding K08d: only generated there when asked for
+        if c.in_proc or c.allow_top_cweh:
+            opts.append(("cweh", 2.5))
         if c.allow_reenter:
             opts.append(("reenter", 4))
         if c.ks:
-            opts.append(("escape", 5))
+            opts.append(("escape", 14))
         if c.fns:
             opts.append(("call", 4))
         if c.allow_err:
-            opts.append(("error", 4 if c.handlers > 0 else 0.3))
+            opts.append(("error", 9 if c.handlers > 0 else 0.3))
+    elif c.ks and r.random() < 0.5:
+        # at the leaves, inside a receiver: escape with a simple value
+        c.feat("escape")
+        for flag, name in ((c.winds, "escape-from-wind"), (c.in_hof, "escape-from-hof"), (c.in_handler, "escape-from-handler")):
+            if flag:
+                c.feat(name)
+        return "(%s %s)" % (r.choice(c.ks), small(c))
+    elif c.handlers > 0 and c.allow_err and r.random() < 0.25:
+        return err_expr(c)
     names = [o[0] for o in opts]
     k = r.choices(names, weights=[o[1] for o in opts])[0]
     if k == "lit":
@@ -177,7 +194,7 @@ def gen(c, d):
         return "(%s %s)" % (kv, gen(c, d - 1))
     if k == "capture":
         kv = c.fresh("k")
-        cc = c.child()
+        cc = c.child(in_proc=True)
         cc.ks.append(kv)
         where = ("hof" if c.in_hof else "thunk" if c.in_thunk else "handler" if c.in_handler else "expr")
         c.feat("capture-in-" + where)
@@ -190,6 +207,7 @@ def gen(c, d):
         return "(call/cc (lambda (%s) %s))" % (kv, gen(cc, d - 1))
     if k == "reenter":
         c.feat("reenter")
+        c.nre[0] += 1
         if c.winds:
             c.feat("invoke-inside-wind")
         if c.in_hof:
@@ -203,7 +221,7 @@ def gen(c, d):
     if k == "wind":
         depth = r.choice([1, 1, 1, 2, 2, 3, 4])
         c.feat("wind-depth-%d" % depth)
-        cc = c.child(winds=c.winds + depth)
+        cc = c.child(winds=c.winds + depth, in_proc=True)
         body = gen(cc, d - 1)
         for i in range(depth):
             t = c.fresh("w")
@@ -213,19 +231,22 @@ def gen(c, d):
     if k == "handler":
         t = c.fresh("h")
         c.feat("with-handler")
-        hc = c.child(in_handler=True, allow_err=c.allow_handler_err and c.handlers > 0)
-        bc = c.child(handlers=c.handlers + 1)
+        hc = c.child(in_handler=True, allow_err=c.allow_handler_err and c.handlers > 0, in_proc=True)
+        bc = c.child(handlers=c.handlers + 1, in_proc=True)
         return "(with-handler (lambda (e) (begin (note '%s) %s)) %s)" % (t, gen(hc, d - 1), gen(bc, d - 1))
     if k == "cweh":
         t = c.fresh("h")
         c.feat("call-with-exception-handler")
-        hc = c.child(in_handler=True, allow_err=c.allow_handler_err and c.handlers > 0)
-        bc = c.child(handlers=c.handlers + 1)
+        if not c.in_proc:
+            c.feat("top-level-cweh")
+        # an error raised by the handler itself goes to the next enclosing handler
+        hc = c.child(in_handler=True, allow_err=c.handlers > 0, in_proc=True, handlers=c.handlers)
+        bc = c.child(handlers=c.handlers + 1, in_proc=True)
         return "(call-with-exception-handler (lambda (e) (begin (note '%s) %s)) (lambda () %s))" % (
             t, gen(hc, d - 1), gen(bc, d - 1))
     if k == "hof":
         x = c.fresh("x")
-        cc = c.child(in_hof=True)
+        cc = c.child(in_hof=True, in_proc=True)
         cc.vars.append(x)
         lst = "(list %s)" % " ".join(lit(r) for _ in range(r.choice([2, 3, 3, 4])))
         which = r.choice(["map", "map", "foldl", "for-each", "filter", "transduce"])
@@ -261,16 +282,17 @@ PROLOGUE = """(define tr '())
 (define bx (box #f))"""
 
 
-def gen_random(rng, size, feats, handler_errors=False, top_level_invoke=True):
+def gen_random(rng, size, feats, handler_errors=False, top_level_invoke=True, top_cweh=False):
     c = Ctx(rng, feats)
     c.allow_handler_err = handler_errors
+    c.allow_top_cweh = top_cweh
     lines = [PROLOGUE % rng.choice([1, 2, 2, 3, 4])]
     # helper procedures (no re-entry of stored continuations inside: they may be called many times, but
     # captures / escapes / winds / errors are fine)
     for _ in range(rng.choice([0, 1, 2])):
         name = c.fresh("f")
         a = c.fresh("a")
-        fc = c.child()
+        fc = c.child(in_proc=True)
         fc.vars = [a]
         body = gen(fc, size - 1)
         lines.append("(define (%s %s) %s)" % (name, a, body))
@@ -278,7 +300,7 @@ def gen_random(rng, size, feats, handler_errors=False, top_level_invoke=True):
     if rng.random() < 0.3:
         # a tail-recursive helper whose loop body captures
         name = c.fresh("lp")
-        fc = c.child()
+        fc = c.child(in_proc=True)
         fc.vars = ["n", "acc"]
         lines.append("(define (%s n acc) (if (<= n 0) acc (%s (- n 1) %s)))" % (name, name, gen(fc, size - 1)))
         c.feat("tail-recursive-helper")
@@ -287,8 +309,11 @@ def gen_random(rng, size, feats, handler_errors=False, top_level_invoke=True):
         fcx = c.child()
         if not top_level_invoke and i > 0:
             fcx.allow_reenter = False
+        nre0 = c.nre[0]
         e = gen(fcx, size)
-        if rng.random() < 0.3:
+        # a form that invokes a stored continuation may never finish (control goes on after ANOTHER form): its
+        # value must not be needed later, so it is not a definition
+        if rng.random() < 0.3 and c.nre[0] == nre0:
             v = c.fresh("v")
             lines.append("(define %s %s)" % (v, e))
             c.vars.append(v)
@@ -473,14 +498,18 @@ def t_handler_nesting(rng, feats):
 TEMPLATES = [t_generator, t_coroutines, t_amb, t_with_lock, t_reset_shift, t_handler_nesting]
 
 
-def gen_program(rng, size=3, handler_errors=False):
+def gen_program(rng, size=3, handler_errors=None):
     """Returns (program text, set of features)."""
     feats = set()
     x = rng.random()
+    if handler_errors is None:
+        # errors raised inside with-handler handlers are the class of findings K08b/K08c: a third of the programs
+        handler_errors = rng.random() < 0.33
     if x < 0.25:
         t = rng.choice(TEMPLATES)
         return t(rng, feats), feats
-    return gen_random(rng, size, feats, handler_errors=handler_errors), feats
+    # 4%: programs of the class of finding K08d (call-with-exception-handler directly in a top-level form)
+    return gen_random(rng, size, feats, handler_errors=handler_errors, top_cweh=(x > 0.96)), feats
 
 
 # ---------------------------------------------------------------------------------------------------------
